@@ -57,11 +57,11 @@ func CheckNoAncestorGoit(dir string) error {
 // Running goit
 
 type Result struct {
-	Exit    int // -1 if signalled
-	Signal  string
-	Stdout  []byte
-	Stderr  []byte
-	CPUms   int64
+	Exit     int // -1 if signalled
+	Signal   string
+	Stdout   []byte
+	Stderr   []byte
+	CPUms    int64
 	TimedOut bool // wall-clock watchdog fired (inconclusive by itself)
 }
 
@@ -174,6 +174,7 @@ func (s *Sandbox) Run(goit string, argv []string, o RunOpts) *Result {
 // Snap is the complete content of a sandbox: files as bytes plus the set of directories.
 // Paths are relative to the sandbox root: "w/...", "home/...".
 type Snap struct {
+	Root  string // sandbox root at the time of the snapshot (absolute)
 	Files map[string][]byte
 	Dirs  map[string]bool
 	Odd   map[string]string // symlinks, special files (should never appear)
@@ -182,7 +183,7 @@ type Snap struct {
 }
 
 func (s *Sandbox) Snapshot() *Snap {
-	sn := &Snap{Files: map[string][]byte{}, Dirs: map[string]bool{}, Odd: map[string]string{}}
+	sn := &Snap{Root: s.Root, Files: map[string][]byte{}, Dirs: map[string]bool{}, Odd: map[string]string{}}
 	for _, top := range []string{"w", "home"} {
 		base := filepath.Join(s.Root, top)
 		filepath.Walk(base, func(p string, fi os.FileInfo, err error) error {
@@ -392,8 +393,8 @@ type Repo struct {
 	HeadOK      bool   // exactly "ref: refs/heads/<plain name>"
 	HeadBranch  string // valid if HeadOK
 
-	Branches   map[string]string // file name under refs/heads -> raw content
-	RefOddity  []string          // directories or nested files under refs/heads
+	Branches  map[string]string // file name under refs/heads -> raw content
+	RefOddity []string          // directories or nested files under refs/heads
 
 	IndexPresent bool
 	Index        *gitfmt.Index
@@ -402,8 +403,8 @@ type Repo struct {
 	Objects map[string]*ObjInfo // id from path -> decode
 	ObjOdd  []string            // files under objects/ with a non-object path
 
-	Local, Global       map[string]map[string]string
-	LocalErr, GlobalErr error
+	Local, Global               map[string]map[string]string
+	LocalErr, GlobalErr         error
 	LocalPresent, GlobalPresent bool
 
 	LogHEAD []string // lines of logs/HEAD
